@@ -89,6 +89,14 @@ class Lock:
         self.f.close()
 
 
+def _big_stack():
+    import resource
+    try:
+        resource.setrlimit(resource.RLIMIT_STACK, (resource.RLIM_INFINITY, resource.RLIM_INFINITY))
+    except Exception:
+        pass
+
+
 def run(cmd, timeout=None, cwd=None, env=None, input=None):
     e = dict(os.environ)
     e["CARGO_NET_OFFLINE"] = "true"
@@ -96,7 +104,7 @@ def run(cmd, timeout=None, cwd=None, env=None, input=None):
     if env:
         e.update(env)
     try:
-        p = subprocess.run(cmd, cwd=cwd, env=e, capture_output=True, text=True, timeout=timeout, input=input)
+        p = subprocess.run(cmd, cwd=cwd, env=e, capture_output=True, text=True, timeout=timeout, input=input, preexec_fn=_big_stack)
         return p.returncode, p.stdout, p.stderr
     except subprocess.TimeoutExpired as ex:
         return 124, (ex.stdout or b"").decode("utf8", "replace") if isinstance(ex.stdout, bytes) else (ex.stdout or ""), "timeout"
@@ -130,6 +138,10 @@ def gallina_str(s):
 
 
 def gallina_list(items):
+    items = list(items)
+    if len(items) > 3000:
+        # very long list literals overflow Coq's parser stack: concatenate chunks
+        return "(" + " ++ ".join("[" + ";".join(items[i:i + 2000]) + "]" for i in range(0, len(items), 2000)) + ")"
     return "[" + ";".join(items) + "]"
 
 
